@@ -152,6 +152,7 @@ func garbage() []datum {
 		g("bytes", space.B([]byte{1})),
 		g("neg", space.NInt(-1)),
 		g("null", space.Null()),
+		g("undefined", space.Simple(23)),
 		g("true", space.Bool(true)),
 		g("map{}", space.M()),
 		g("[]", space.A()),
@@ -220,6 +221,9 @@ func dclass(v uint16, d datum) string {
 	s := shapeOf(v)
 	if s == shNone {
 		return "any"
+	}
+	if d.label == "null" || d.label == "undefined" {
+		return "null-data" // CBOR null / undefined in the place of the version data
 	}
 	if d.shape != s {
 		return "undecodable"
@@ -659,8 +663,8 @@ func gen(thorough bool) []e1lib.Scenario {
 		}
 		s := scenario("sched|"+name, []acceptance{rep}, false)
 		s.MinB, s.MaxB, s.Budget = 1, 1, 120*time.Second
-		if thorough && strings.Contains(name, "|ntn|") {
-			s.MaxB, s.Budget = 2, 240*time.Second
+		if thorough {
+			s.MaxB, s.Budget = 2, 300*time.Second
 		}
 		scs = append(scs, s)
 	}
